@@ -1977,3 +1977,80 @@ func c01R23to26(ic *IC, r *Report) {
 		r.Errorf("R01.26: only %d direct-store shortcuts found in the assignment case of cfg", nS)
 	}
 }
+
+func init() {
+	ruleText["R01.27"] = "the placeholders of the per-iteration loop variables, first children of a loop body, are executed but have a kind the generic child wiring skips (identExpr): the block case of cfg gives the last of them a successor when the body is otherwise empty, under a test of that kind"
+}
+
+// c01R27: found D77 - `for i := 0; i < 3; i++ {}` and `for range xs {}` ended the enclosing
+// function silently (the last placeholder had no successor), on the original commit too.
+func c01R27(ic *IC, r *Report) {
+	info := ic.Info
+	fi := ic.fn(r, "Interpreter.cfg")
+	wc := ic.fn(r, "wireChild")
+	if fi == nil || wc == nil {
+		return
+	}
+	tnextFld := ic.field("node", "tnext")
+	identK, _ := ic.Pk.Types.Scope().Lookup("identExpr").(*types.Const)
+	blockK, _ := ic.Pk.Types.Scope().Lookup("blockStmt").(*types.Const)
+	// does the generic wiring skip identExpr when it looks for the node that leads to the parent?
+	skips := false
+	ast.Inspect(wc.Decl.Body, func(m ast.Node) bool {
+		if cc, ok := m.(*ast.CaseClause); ok {
+			for _, l := range cc.List {
+				if id := identOf(l); id != nil && identK != nil && info.ObjectOf(id) == identK {
+					for _, s := range cc.Body {
+						if br, ok := s.(*ast.BranchStmt); ok && br.Tok == token.CONTINUE {
+							skips = true
+						}
+					}
+				}
+			}
+		}
+		return true
+	})
+	if !skips {
+		r.Pass("R01.27", "cfg/empty-loop-body/placeholders-wired-by-the-generic-rule", ic.pos(wc.Decl.Pos()), "wireChild does not skip identExpr children")
+		return
+	}
+	ok := false
+	var at token.Pos = fi.Decl.Pos()
+	ast.Inspect(fi.Decl.Body, func(m ast.Node) bool {
+		cc, isCC := m.(*ast.CaseClause)
+		if !isCC {
+			return true
+		}
+		isBlock := false
+		for _, l := range cc.List {
+			if id := identOf(l); id != nil && blockK != nil && info.ObjectOf(id) == blockK {
+				isBlock = true
+			}
+		}
+		if !isBlock || len(callsIn(info, cc, true, "interp.wireChild")) == 0 {
+			return true
+		}
+		at = cc.Pos()
+		ast.Inspect(cc, func(k ast.Node) bool {
+			as, isAs := k.(*ast.AssignStmt)
+			if !isAs || len(as.Lhs) != 1 || selField(info, as.Lhs[0]) != tnextFld {
+				return true
+			}
+			for _, p := range enclosingPath(cc, as) {
+				if ifs, isIf := p.(*ast.IfStmt); isIf {
+					ast.Inspect(ifs.Cond, func(q ast.Node) bool {
+						if id, isId := q.(*ast.Ident); isId && identK != nil && info.ObjectOf(id) == identK {
+							ok = true
+							at = as.Pos()
+						}
+						return true
+					})
+				}
+			}
+			return true
+		})
+		return true
+	})
+	r.Check(ok, "R01.27", "cfg/empty-loop-body/last-placeholder-has-a-successor", ic.pos(at), "an otherwise empty loop body leads to the block node",
+		"wireChild skips identExpr children when it chains the last executable child of a block to the block, and the block case of cfg does not give the last loop-variable placeholder a successor: with an empty body (for i := 0; i < 3; i++ {}, for range xs {}) the placeholder's closure returns nil, the execution loop stops and the rest of the enclosing function is silently skipped")
+}
